@@ -49,7 +49,8 @@ const MENU: [&str; 18] = [
 /// the first `MENU_CORE` lines form the menu of the big families
 const MENU_CORE: usize = 15;
 /// leaves of the `special-files` families: multi-byte text, CR LF line ends, blank-only files, a file ending in CR
-const SPECIAL_LEAVES: [&str; 9] = ["é€😀 z\n", "a\r\nb\r\n", " \n \n", "\n\n", "a\r", "é\\endinput €\n😀\n", "{a} b\nc\nd\n", "{a\nb} c\nd", "{}\nb\n"];
+/// (the last five: a last line of blanks only that is not terminated - still a line, it delivers \par)
+const SPECIAL_LEAVES: [&str; 14] = ["é€😀 z\n", "a\r\nb\r\n", " \n \n", "\n\n", "a\r", "é\\endinput €\n😀\n", "{a} b\nc\nd\n", "{a\nb} c\nd", "{}\nb\n", "A\n   ", "   ", "A\n\t", " ", "A\n \n  "];
 const LEAVES: [&str; 5] = ["k", "k\n", "", "p\nq\n", "u\\endinput v\nw\n"];
 
 #[derive(Clone, Debug, PartialEq)]
@@ -302,7 +303,8 @@ fn inline_check(idx: u64, case: &TreeCase, got: &vtex::RunOut, acc: &mut Acc) {
         if let Some(name) = l.strip_prefix("\\input ") {
             if !name.is_empty() && name.chars().all(|c| c.is_ascii_lowercase()) {
                 if let Some(text) = case.files.get(name) {
-                    if text.ends_with('\n') && !text.contains("\\endinput") {
+                    // the lines of the file stand in place of the line, whether or not its last line is terminated
+                    if !text.is_empty() && !text.contains("\\endinput") {
                         out.extend(scan::split_lines(text));
                         changed = true;
                         done = true;
@@ -370,6 +372,67 @@ fn judge_openin_name(idx: u64, name: &str, files: &BTreeMap<String, String>, acc
 }
 
 // ---------------------------------------------------------------- depth chain
+
+/// The text does not end in a newline and its last line consists of spaces only.
+fn ends_with_unterminated_blank_line(t: &str) -> bool {
+    let last = t.rsplit('\n').next().unwrap_or("");
+    !last.is_empty() && last.chars().all(|c| c == ' ')
+}
+
+/// `\read` is an assignment (§1218 prefixed_command, read_to_cs): local to the group unless \globaldefs>0 or
+/// (\globaldefs=0 and a \global prefix); \globaldefs<0 makes it local whatever the prefix.
+fn judge_read_scope(idx: u64, g: i64, prefix: bool, predef: bool, depth: usize, acc: &mut Acc) {
+    acc.eval();
+    acc.nontrivial();
+    if g > 0 {
+        acc.count("read_inside_group_under_positive_globaldefs");
+    }
+    if prefix {
+        acc.count("global_prefix_on_read");
+    }
+    let line = |c: char| vec![TokV::Ch(c, 11), TokV::Ch(' ', 10)];
+    let pre = if predef { Some(line('a')) } else { None };
+    let inner = if predef { line('b') } else { line('a') };
+    let is_global = g > 0 || (g == 0 && prefix);
+    let after = if is_global { Some(inner) } else { pre };
+    let want = match &after {
+        Some(t) => readtoks::show_toks(t),
+        None => "[\\x]".to_string(),
+    };
+    let prog = format!(
+        "\\scrollmode \\openin 0=fd {}\\globaldefs={g} {}{}\\read 0 to\\x {}\\globaldefs=0 \\expandafter\\capture\\x\\END %",
+        if predef { "\\read 0 to\\x " } else { "" },
+        "{".repeat(depth),
+        if prefix { "\\global" } else { "" },
+        "}".repeat(depth)
+    );
+    let case = || json!({"kind": "read-scope", "globaldefs": g, "prefix": prefix, "predef": predef, "depth": depth, "program": prog});
+    match vtex::run_fresh_with(&prog, |vm| {
+        let fs = vm.state.env.fs.borrow();
+        for (n, c) in STREAM_FILES {
+            fs.add(&format!("{n}.tex"), c);
+        }
+    }) {
+        Outcome::Done(r) => {
+            if prefix {
+                // a prefix on \read is in no statement (C19, C01): recorded, never judged (AUDIT.md)
+                if r.out == want && r.err.is_none() {
+                    acc.class("\\global\\read accepted, scope as in TeX");
+                } else if r.err.is_some() {
+                    acc.class("note: \\global\\read rejected (TeX 1210/1218 allows it; outside the statement)");
+                } else {
+                    acc.class("note: \\global\\read accepted with another scope than TeX's (outside the statement)");
+                }
+                return;
+            }
+            if r.out != want || r.err.is_some() {
+                acc.fail(idx, case(), want, r.show(), "the macro defined by \\read has the wrong scope after the group (§1218: \\read is an assignment, global under \\globaldefs>0)");
+            }
+        }
+        Outcome::Cutoff => acc.cutoffs += 1,
+        Outcome::Panic(p) => acc.fail(idx, case(), want, p.describe(), "the VM panicked"),
+    }
+}
 
 fn chain_case(n: usize, shape: usize) -> TreeCase {
     let mut files = BTreeMap::new();
@@ -919,6 +982,7 @@ fn main() {
         match case["kind"].as_str() {
             Some("tree") => judge_tree(0, &TreeCase::from_json(&case), &mut acc, false),
             Some("inline") => judge_tree(0, &TreeCase::from_json(&case), &mut acc, true),
+            Some("read-scope") => judge_read_scope(0, case["globaldefs"].as_i64().unwrap_or(0), case["prefix"].as_bool().unwrap_or(false), case["predef"].as_bool().unwrap_or(false), case["depth"].as_u64().unwrap_or(1) as usize, &mut acc),
             Some("openin-name") => {
                 let files: BTreeMap<String, String> = case["files"].as_object().map(|o| o.iter().map(|(k, v)| (k.clone(), v.as_str().unwrap_or("").to_string())).collect()).unwrap_or_default();
                 judge_openin_name(0, case["name"].as_str().unwrap_or(""), &files, &mut acc);
@@ -1000,6 +1064,20 @@ fn main() {
             }
             if case.files.values().any(|t| !t.is_empty() && t.chars().all(|c| c == ' ' || c == '\n')) {
                 acc.count("input_file_blank_only");
+            }
+            if case.files.values().any(|t| ends_with_unterminated_blank_line(t)) {
+                acc.count("input_file_ends_with_spaces_only_line_without_newline");
+            }
+            judge_tree(i, &case, acc, true);
+        });
+        let specials: Vec<Spec> = SPECIAL_LEAVES.iter().map(|s| Spec::Literal(s)).collect();
+        let shape = Shape::new(vec![files_upto(1, m2), files_upto(1, m2), specials]);
+        ctx.family("special-files-nested", "main and its child: every file of <= 1 line of the extended menu; below: the special leaves (nested one level deeper)", shape.count(), |i, acc| {
+            let mut files = BTreeMap::new();
+            let main = shape.build(0, i, "", &mut files, &mut vec![]);
+            let case = TreeCase { main, files };
+            if case.files.values().any(|t| ends_with_unterminated_blank_line(t)) {
+                acc.count("input_file_ends_with_spaces_only_line_without_newline");
             }
             judge_tree(i, &case, acc, true);
         });
@@ -1131,6 +1209,11 @@ fn main() {
             }
         });
     }
+    // F5b: the scope of the definition \\read makes
+    ctx.family("read-scope", "\\read inside a group (depth 1, 2) under \\globaldefs in {-1, 0, 1}, with and without a \\global prefix, target defined before or not; the target is observed after the group has closed", 3 * 2 * 2 * 2, |i, acc| {
+        let d = vcore::digits(i, &[3, 2, 2, 2]);
+        judge_read_scope(i, d[0] as i64 - 1, d[1] == 1, d[2] == 1, d[3] as usize + 1, acc);
+    });
     // F6: read streams, once with the initial \\endlinechar and once with \\endlinechar=-1 from the prelude on
     for (suffix, no_elc) in [("", false), ("-noelc", true)] {
         // F6a: every short history without merging, including the file that ends inside a group
@@ -1204,6 +1287,8 @@ fn main() {
     ctx.require("read_from_terminal", "a \\read went to the terminal");
     ctx.require("stream_number_out_of_range", "a stream number outside 0..15 was used");
     ctx.require("two_streams_open", "two streams are open at the same time");
+    ctx.require("read_inside_group_under_positive_globaldefs", "a \\read is executed inside a group while \\globaldefs > 0");
+    ctx.require("input_file_ends_with_spaces_only_line_without_newline", "an input file ends with an unterminated line of spaces only");
     ctx.require("file_name_contains_char_token_of_category_other_than_11_12", "a file name holds a character token whose category is neither letter nor other");
     for (c, m) in [
         ("read_line_with_balanced_group_followed_by_more_lines", "a \\read stops after a line that holds a complete group while the file has further lines"),
